@@ -34,7 +34,13 @@ NORMS = ["LogNormal", "BoxCox", "BoxCoxShift", "YeoJohnson", "Modulus", "Manly"]
 
 
 def _make(name, p):
-    return getattr(gs.normalizer, name)(**p)
+    # parameters are numbers of whatever type the user has at hand: Python ints, numpy integers, 0-d arrays
+    q = dict(p)
+    for k, v in p.items():
+        if float(v) == int(float(v)) and abs(float(v)) < 100:
+            # (float32 parameters are left out: the package then computes in single precision, which is the user's choice)
+            q[k] = [int(float(v)), np.int64(int(float(v))), float(v), np.array(float(v))][(int(abs(float(v)) * 7) + len(name) + len(k)) % 4]
+    return getattr(gs.normalizer, name)(**q)
 
 
 def _params(name, lam, shift):
